@@ -85,6 +85,14 @@ def hetero_programs(r):
             P("reduce-acc-list-grows-other-type", "let r = reduce(func (acc, x) => acc + [x], [%s], [%s]); let v = %s;" % (b, a, ua % "r.1"))
             P("module-returns-param-override-wider", "let m = module {x = {a = %s}} => (r) {let r = mod.x;}; let v = %s;" % (b, ua % ("m{x = {a = %s, b = %s}}.b" % (b, a))))
             P("module-returns-param-field-override-other-type", "let m = module {x = NULL, y = %s} => (r) {let r = {p = mod.x, q = mod.y};}; let o = m{x = %s}; let v = %s; let w = %s;" % (b, a, ua % "o.p", ub % "o.q"))
+            # modules with several parameters, some given as declared, one given something wider
+            P("module-2-params-first-wider", "let m = module {x = {a = %s}, y = 1} => (r) {let r = mod.x;}; let v = %s;" % (b, ua % ("m{x = {a = %s, b = %s}, y = 2}.b" % (b, a))))
+            P("module-2-params-last-wider", "let m = module {y = 1, x = {a = %s}} => (r) {let r = mod.x;}; let v = %s;" % (b, ua % ("m{y = 2, x = {a = %s, b = %s}}.b" % (b, a))))
+            P("module-3-params-middle-wider", "let m = module {w = \"s\", x = {a = %s}, y = 1} => (r) {let r = {c = mod.x, n = mod.y};}; let v = %s;"
+              % (b, ua % ("m{y = 2, x = {a = %s, b = %s}, w = \"t\"}.c.b" % (b, a))))
+            P("module-2-params-list-of-wider-tuples", "let m = module {xs = [{a = %s}], y = 1} => (r) {let r = mod.xs;}; let o = m{xs = [{a = %s, b = %s}], y = 2}; let v = %s;"
+              % (b, b, a, ua % "(o.0).b"))
+            P("module-2-params-only-wider-one-given", "let m = module {x = {a = %s}, y = 1} => (r) {let r = mod.x;}; let v = %s;" % (b, ua % ("m{x = {a = %s, b = %s}}.b" % (b, a))))
             P("is-guarded-function", "let f = func (x) => select (x is \"%s\") => {true = %s, false = 0}; let r = f(%s); let w = f(%s);" % (A, ua % "x", b, a))
             P("is-guarded-function-default", "let f = func (x) => select (x is \"%s\", 0) => {true = %s}; let r = f(%s); let w = f(%s);" % (A, ua % "x", b, a))
     return out
